@@ -1,8 +1,9 @@
 (* C04 - a built Partial is functools.partial; ArgFactory arguments are fresh per call.
    Model: theories/Partial.v (validated against the implementation by theories/C04Check.v).
    Proofs: theories/Partial_proofs.v. *)
-From Fiddle Require Import PyBase PySlice Sig ArgStore PyCall Heap Traverse Partial Partial_proofs AnchorsBuild.
-From Coq Require Import List Arith.
+From Fiddle Require Import PyBase PySlice Sig ArgStore PyCall Heap Traverse Partial Partial_proofs AnchorsBuild
+  C08Check Cycle_proofs CyclePartial_proofs.
+From Coq Require Import List Arith Relations.
 Import ListNotations.
 Local Open Scope nat_scope.
 
@@ -326,3 +327,15 @@ Example C04_two_calls_example :
   nth_error (fst c3) 13 = Some (NList [RP 12; RP 7]).
 Proof. exact two_calls_example. Qed.
 Print Assumptions C04_two_calls_example.
+
+(* ---- building Partials / ArgFactories on ARBITRARY heaps (reference cycles allowed) ---- *)
+(* the build never recurses without bound, and a cycle error names an object that reaches itself *)
+Theorem C04_partial_build_never_recurses_forever : forall e h r s res,
+  pbuild e h r = (s, res) -> res <> inr FOutOfFuel.
+Proof. exact pbuild_never_out_of_fuel. Qed.
+Print Assumptions C04_partial_build_never_recurses_forever.
+
+Theorem C04_partial_build_reported_cycle_is_real : forall e h r s c,
+  pbuild e h r = (s, inr (FCycle c)) -> clos_trans nat (cstep e h) c c.
+Proof. exact pbuild_cycle_real. Qed.
+Print Assumptions C04_partial_build_reported_cycle_is_real.
